@@ -5,6 +5,10 @@ Proof: Properties/C10.lean (the model of the whole assembler is total; label res
 Tie:   real Lexer/Parser/CodeGen under ASan/UBSan/_GLIBCXX_ASSERTIONS with a watchdog vs the
        model's outcome class (image / diagnostic class + location), and token streams."""
 import json
+import os
+import subprocess
+import tempfile
+import concurrent.futures as cf
 from collections import Counter
 
 import common as C
@@ -12,6 +16,72 @@ import asm_common as A
 import gen_asm as G
 
 PID = "C10"
+
+
+def layout_variants(r):
+    """every diagnostic class with the offending token on the same line, at the end of a line, at the start of the next line and
+    after blank lines / indentation (the location a diagnostic carries may lie on an earlier line than the one being lexed)"""
+    out = []
+    heads = ["", "LDAC 0 ", "  LDBM 1   ", "lab\n", "# c\nLDAC 1\n"]
+    gaps = [" ", "\n", "\n\n", "  \n   ", "\n# c\n", "\t"]
+    bads = ["OPR{g}X", "OPR{g}LDAC 0", "OPR{g}7", "OPR{g}OPR", "OPR", "LDAC{g}X9{g}X9", "LDAC{g}-{g}X", "LDAC{g}-", "DATA{g}OPR", "BR{g}nowhere",
+            "FUNC{g}7", "PROC{g}OPR", "LDAM{g}u{g}OPR ADD{g}u{g}DATA 1", "LDAC{g}:", "x{g}:{g}y", "OPR{g}ADD{g}OPR{g}+"]
+    for h in heads:
+        for b in bads:
+            for g in gaps:
+                out.append((h + b.replace("{g}", g) + r.choice(["", "\n", "\nLDAC 1\n", " BR 1\n"])).encode())
+    return out
+
+
+def run_exe(exe, src, workroot):
+    d = tempfile.mkdtemp(prefix="c10x-", dir=workroot)
+    try:
+        with open(os.path.join(d, "p.S"), "wb") as f:
+            f.write(src)
+        try:
+            p = subprocess.run([exe, "p.S", "-o", "o.bin"], cwd=d, stdin=subprocess.DEVNULL, stdout=subprocess.PIPE,
+                               stderr=subprocess.PIPE, timeout=20)
+            rc, err = p.returncode, (p.stderr + p.stdout)[:800].decode("latin1")
+        except subprocess.TimeoutExpired:
+            rc, err = "timeout", ""
+        left = os.path.exists(os.path.join(d, "o.bin"))
+        return rc, err, left
+    finally:
+        import shutil
+        shutil.rmtree(d, ignore_errors=True)
+
+
+def executable_pass(sources, recs, r, replay):
+    import c14
+    tools = c14.build_tools()
+    exe = os.path.join(tools, "hexasm")
+    workroot = os.path.join(C.BUILD, "work")
+    os.makedirs(workroot, exist_ok=True)
+    if replay:
+        todo = list(sources)
+    else:
+        todo = layout_variants(r)
+        seen = set()
+        # one source of every outcome class of the in-process run, plus the hand-written ones
+        for rec in recs:
+            k = " ".join(rec["real"].split(" ")[:2])
+            if k not in seen or len(seen) < 400 and len(rec["src"]) < 200 and r.chance(1, 8):
+                seen.add(k)
+                todo.append(rec["src"])
+    with cf.ThreadPoolExecutor(max_workers=C.NPROC) as ex:
+        res = list(ex.map(lambda s: run_exe(exe, s, workroot), todo))
+    bad, classes = [], Counter()
+    for src, (rc, err, left) in zip(todo, res):
+        classes[str(rc) + ("+file" if left else "")] += 1
+        if rc == 0 and left:
+            continue
+        if rc == 1 and not left and err.strip():
+            continue
+        why = ("hang" if rc == "timeout" else "killed by signal %d" % -rc if isinstance(rc, int) and rc < 0 else
+               "status 0 without an output file" if rc == 0 else "diagnostic with an output file left behind" if rc == 1 and left else
+               "status 1 without a diagnostic" if rc == 1 else "unexpected exit status %s" % rc)
+        bad.append((src, why, rc, err))
+    return bad, classes, len(todo)
 
 
 def run(tier, seed, replay=None):
@@ -58,6 +128,10 @@ def run(tier, seed, replay=None):
             faults.append(rec)
         elif a != rec["model"] or rec["tok_real"] != rec["tok_model"]:
             mism.append(rec)
+    # the EXECUTABLE (hexasm.cpp main with its catch sites, built by the repository's CMake) on the hand-written sources, on
+    # every accepted-or-rejected class once more, and on sources whose diagnostics refer to an earlier line than the lexer holds:
+    # the process must end with status 0 (image written) or 1 (diagnostic, nothing written) - no signal, no abort, no hang
+    exe_bad, exe_classes, exe_n = executable_pass(sources, recs, r, replay)
     rep.coverage.update({
         "obligations": info.get("obligations", 0), "discharged": info.get("discharged", 0),
         "checker_cmd": "cd lean && lake build HexVerif.Properties.C10 && #print axioms",
@@ -73,8 +147,14 @@ def run(tier, seed, replay=None):
         "outcome_classes": dict(cls), "model_vs_impl_mismatches": len(mism), "faults": len(faults),
         "diagnostic_but_output_left_behind": len(leftover),
         "traces_validated_against_impl": len(sources) - len(mism) - len(faults),
+        "executable_runs": exe_n, "executable_outcomes": dict(exe_classes), "executable_failures": len(exe_bad),
     })
     rep.assumptions += ["inputs are up to a few kilobytes (property quantifier); the theorem covers < 2^26 bytes"]
+    if exe_bad and not faults:
+        src, why, rc, err = exe_bad[0]
+        rep.violation("executable", {"source_hex": src.hex(), "source": src.decode("latin1")[:1500], "why": why, "status": rc,
+                                     "stderr": err[:600], "seed": seed, "count": len(exe_bad),
+                                     "rerun": "./check C10 --replay <this file>"})
     if faults:
         rec = faults[0]
         def fails(src):
